@@ -11,37 +11,37 @@ namespace OptimizeSimVm
 open Tera.Vm
 
 section spreads
-variable {c c' : Chunk} {f : Nat → Nat} {P : Nat → Nat → Prop}
+variable {E : RErr → RErr → Prop} {π : PMap} {c c' : Chunk} {f : Nat → Nat} {P : Nat → Nat → Prop}
 
 /-- results of the two spread loops, related -/
-def SumRel (c c' : Chunk) (f : Nat → Nat) (P : Nat → Nat → Prop) {α : Type} :
+def SumRel (E : RErr → RErr → Prop) (π : PMap) (c c' : Chunk) (f : Nat → Nat) (P : Nat → Nat → Prop) {α : Type} :
     StepRes ⊕ (α × List Slot) → StepRes ⊕ (α × List Slot) → Prop
-  | .inl r, .inl r' => StepRel c c' f P r r'
+  | .inl r, .inl r' => StepRelG E π c c' f P r r'
   | .inr (a, rest), .inr (a', rest') => a' = a ∧ rest' = rest.map (mapSlot f) ∧ GoodStack c c' f rest
   | _, _ => False
 
-theorem popSpreadMap_rel (hR : Ren c c' f) (env : Env) (vm : VmCtx) :
+theorem popSpreadMap_rel (hE : ∀ e, E e e) (hR : Ren c c' f) (env : Env) (vm : VmCtx) :
     ∀ (fs : List Bool) (stk : List Slot) (acc : Entries), GoodStack c c' f stk →
-      SumRel c c' f P (popSpreadMap env vm c fs stk acc)
+      SumRel E π c c' f P (popSpreadMap env vm c fs stk acc)
         (popSpreadMap env vm c' fs (stk.map (mapSlot f)) acc)
   | [], stk, acc, h => by simp only [popSpreadMap]; exact ⟨rfl, rfl, h⟩
   | true :: fs, [], acc, _ => by simp only [popSpreadMap, List.map_nil, SumRel]; exact rel_panic _ _
   | true :: fs, (v, span) :: rest, acc, h => by
     simp only [popSpreadMap, List.map_cons, mapSlot]
     split
-    · exact popSpreadMap_rel hR env vm fs rest _ (goodStack_tail h)
-    · exact rel_renderingError hR env vm v span _ (goodStack_head h)
+    · exact popSpreadMap_rel hE hR env vm fs rest _ (goodStack_tail h)
+    · exact rel_renderingError hE hR env vm v span _ (goodStack_head h)
   | false :: fs, [], acc, _ => by simp only [popSpreadMap, List.map_nil, SumRel]; exact rel_panic _ _
   | false :: fs, [_], acc, _ => by simp only [popSpreadMap, List.map_cons, List.map_nil, SumRel]; exact rel_panic _ _
   | false :: fs, (v, _) :: (k, _) :: rest, acc, h => by
     simp only [popSpreadMap, List.map_cons, mapSlot]
     split
-    · exact True.intro
-    · exact popSpreadMap_rel hR env vm fs rest _ (goodStack_tail (goodStack_tail h))
+    · exact hE _
+    · exact popSpreadMap_rel hE hR env vm fs rest _ (goodStack_tail (goodStack_tail h))
 
-theorem popSpreadList_rel (hR : Ren c c' f) (env : Env) (vm : VmCtx) :
+theorem popSpreadList_rel (hE : ∀ e, E e e) (hR : Ren c c' f) (env : Env) (vm : VmCtx) :
     ∀ (fs : List Bool) (stk : List Slot) (acc : List Value), GoodStack c c' f stk →
-      SumRel c c' f P (popSpreadList env vm c fs stk acc)
+      SumRel E π c c' f P (popSpreadList env vm c fs stk acc)
         (popSpreadList env vm c' fs (stk.map (mapSlot f)) acc)
   | [], stk, acc, h => by simp only [popSpreadList]; exact ⟨rfl, rfl, h⟩
   | fl :: fs, [], acc, _ => by simp only [popSpreadList, List.map_nil, SumRel]; exact rel_panic _ _
@@ -49,9 +49,9 @@ theorem popSpreadList_rel (hR : Ren c c' f) (env : Env) (vm : VmCtx) :
     simp only [popSpreadList, List.map_cons, mapSlot]
     split
     · split
-      · exact popSpreadList_rel hR env vm fs rest _ (goodStack_tail h)
-      · exact rel_renderingError hR env vm v span _ (goodStack_head h)
-    · exact popSpreadList_rel hR env vm fs rest _ (goodStack_tail h)
+      · exact popSpreadList_rel hE hR env vm fs rest _ (goodStack_tail h)
+      · exact rel_renderingError hE hR env vm v span _ (goodStack_head h)
+    · exact popSpreadList_rel hE hR env vm fs rest _ (goodStack_tail h)
 
 theorem iterate_map (l : ForLoop) (t : Nat) (hl : l.endIp = 0 ↔ f l.endIp = 0) :
     (mapLoop f l).iterate (f t) = (l.iterate t).map (mapLoop f) := by
@@ -75,21 +75,22 @@ theorem iterate_map (l : ForLoop) (t : Nat) (hl : l.endIp = 0 ↔ f l.endIp = 0)
 end spreads
 
 section arms
-variable {c c' : Chunk} {f : Nat → Nat} {P : Nat → Nat → Prop} (hR : Ren c c' f)
+variable {E : RErr → RErr → Prop} {π : PMap} (hE : ∀ e, E e e)
+  {c c' : Chunk} {f : Nat → Nat} {P : Nat → Nat → Prop} (hR : Ren c c' f)
   {pc k : Nat} (hpc : Good c c' f pc) (hk : f pc = k) (hnext : P (pc + 1) (k + 1))
   (env : Env) (vm : VmCtx) {st : State} (hst : GoodState c c' f P st)
-include hR hpc hk hnext hst
+include hE hR hpc hk hnext hst
 
 local macro "nx " stk:term " , " h:term : tactic =>
-  `(tactic| (have hnx := rel_next_stack (c := c) (c' := c') hnext hst $stk $h
+  `(tactic| (have hnx := rel_next_stack (E := E) (π := π) (c := c) (c' := c') hnext hst $stk $h
              simpa [mapSlot, mapSpan, hk] using hnx))
 
 theorem arm_buildMapWithSpreads (flags : List Bool) :
-    StepRel c c' f P (stepBuildMapWithSpreads env vm c flags pc st)
-      (stepBuildMapWithSpreads env vm c' flags k (mapState f st)) := by
+    StepRelG E π c c' f P (stepBuildMapWithSpreads env vm c flags pc st)
+      (stepBuildMapWithSpreads env vm c' flags k (mapStateP f π st)) := by
   unfold stepBuildMapWithSpreads
   simp only [mapState_stack]
-  have h := popSpreadMap_rel (P := P) hR env vm flags.reverse st.stack [] hst.1
+  have h := popSpreadMap_rel (P := P) (π := π) hE hR env vm flags.reverse st.stack [] hst.1
   revert h
   cases popSpreadMap env vm c flags.reverse st.stack [] with
   | inl r =>
@@ -108,11 +109,11 @@ theorem arm_buildMapWithSpreads (flags : List Bool) :
       nx ((Value.map m', (pc, pc)) :: rest) , (goodStack_cons (goodSlot_own hpc _) hg)
 
 theorem arm_buildListWithSpreads (flags : List Bool) :
-    StepRel c c' f P (stepBuildListWithSpreads env vm c flags pc st)
-      (stepBuildListWithSpreads env vm c' flags k (mapState f st)) := by
+    StepRelG E π c c' f P (stepBuildListWithSpreads env vm c flags pc st)
+      (stepBuildListWithSpreads env vm c' flags k (mapStateP f π st)) := by
   unfold stepBuildListWithSpreads
   simp only [mapState_stack]
-  have h := popSpreadList_rel (P := P) hR env vm flags.reverse st.stack [] hst.1
+  have h := popSpreadList_rel (P := P) (π := π) hE hR env vm flags.reverse st.stack [] hst.1
   revert h
   cases popSpreadList env vm c flags.reverse st.stack [] with
   | inl r =>
@@ -131,8 +132,8 @@ theorem arm_buildListWithSpreads (flags : List Bool) :
       nx ((Value.arr m', (pc, pc)) :: rest) , (goodStack_cons (goodSlot_own hpc _) hg)
 
 theorem arm_filterOrTest (isTest : Bool) (name : String) :
-    StepRel c c' f P (stepFilterOrTest env vm c isTest name pc st)
-      (stepFilterOrTest env vm c' isTest name k (mapState f st)) := by
+    StepRelG E π c c' f P (stepFilterOrTest env vm c isTest name pc st)
+      (stepFilterOrTest env vm c' isTest name k (mapStateP f π st)) := by
   unfold stepFilterOrTest
   cases isTest
   all_goals
@@ -156,10 +157,10 @@ theorem arm_filterOrTest (isTest : Bool) (name : String) :
           · split
             · rename_i v _
               refine ⟨hnext, ?_, goodStack_cons (goodSlot_own hpc _) hr, hst.2⟩
-              simp [mapState, mapSlot, mapSpan, hk]
-            · exact rel_renderingError hR env vm value _ _ hv
+              simp [mapStateP, mapSlot, mapSpan, hk]
+            · exact rel_renderingError hE hR env vm value _ _ hv
             · simpa [mapSpan, hk] using
-                rel_renderingError (P := P) hR env vm value (pc, pc) .call (goodSlot_own hpc value)
+                rel_renderingError (P := P) hE hR env vm value (pc, pc) .call (goodSlot_own hpc value)
             · exact rel_panic _ _
             · exact rel_unmodelled _ _
           · exact rel_panic _ _
@@ -167,8 +168,8 @@ theorem arm_filterOrTest (isTest : Bool) (name : String) :
 /-! ### loops -/
 
 theorem arm_startIterate (hf0 : f 0 = 0) (hP0 : P 0 0) (kv compr : Bool) :
-    StepRel c c' f P (stepStartIterate env vm c kv compr pc st)
-      (stepStartIterate env vm c' kv compr k (mapState f st)) := by
+    StepRelG E π c c' f P (stepStartIterate env vm c kv compr pc st)
+      (stepStartIterate env vm c' kv compr k (mapStateP f π st)) := by
   unfold stepStartIterate
   simp only [mapState_stack]
   cases hs : st.stack with
@@ -180,16 +181,16 @@ theorem arm_startIterate (hf0 : f 0 = 0) (hP0 : P 0 0) (kv compr : Bool) :
     have hr := goodStack_tail hgs
     simp only [List.map_cons, mapSlot]
     split
-    · exact rel_renderingError hR env vm a _ _ ha
+    · exact rel_renderingError hE hR env vm a _ _ ha
     · split
-      · exact rel_renderingError hR env vm a _ _ ha
+      · exact rel_renderingError hE hR env vm a _ _ ha
       · split
         · exact rel_panic _ _
         · rename_i items _
           refine ⟨hnext, ?_, hr, ?_⟩
           · have : mapLoop f (ForLoop.new items compr) = ForLoop.new items compr := by
               simp [mapLoop, ForLoop.new, hf0]
-            simp only [mapState, mapState_scope]
+            simp only [mapStateP, mapState_scope]
             rw [← mapScope_pushLoop, this]
           · intro l hl
             cases hsc : st.scope with
@@ -214,7 +215,7 @@ theorem goodLoops_setTop {l0 l' : ForLoop} {rest : List ForLoop}
     · exact hst.2 l (by rw [hsc]; exact List.mem_cons_of_mem _ hm)
 
 theorem arm_storeLocal (n : String) :
-    StepRel c c' f P (stepStoreLocal n pc st) (stepStoreLocal n k (mapState f st)) := by
+    StepRelG E π c c' f P (stepStoreLocal n pc st) (stepStoreLocal n k (mapStateP f π st)) := by
   unfold stepStoreLocal
   simp only [mapState_scope, mapScope_forLoops]
   cases hl : st.scope.forLoops with
@@ -222,13 +223,13 @@ theorem arm_storeLocal (n : String) :
   | cons l rest =>
     have hgl : GoodLoop f P l := hst.2 l (by rw [hl]; simp)
     simp only [List.map_cons, mapLoop_storeLocalName, mapScope_setTopLoop]
-    refine ⟨hnext, by simp [mapState], hst.1, ?_⟩
-    apply goodLoops_setTop hR hpc hk hnext hst hl
+    refine ⟨hnext, by simp [mapStateP], hst.1, ?_⟩
+    apply goodLoops_setTop hE hR hpc hk hnext hst hl
     unfold ForLoop.storeLocalName
     split <;> exact hgl
 
 theorem arm_iterate (t : Nat) (ht : P t (f t)) (ht0 : t = 0 ↔ f t = 0) :
-    StepRel c c' f P (stepIterate t pc st) (stepIterate (f t) k (mapState f st)) := by
+    StepRelG E π c c' f P (stepIterate t pc st) (stepIterate (f t) k (mapStateP f π st)) := by
   unfold stepIterate
   simp only [mapState_scope, mapScope_forLoops]
   cases hl : st.scope.forLoops with
@@ -240,8 +241,8 @@ theorem arm_iterate (t : Nat) (ht : P t (f t)) (ht0 : t = 0 ↔ f t = 0) :
     | none => exact ⟨ht, rfl, hst⟩
     | some l' =>
       simp only [Option.map_some, mapScope_setTopLoop]
-      refine ⟨hnext, by simp [mapState], hst.1, ?_⟩
-      apply goodLoops_setTop hR hpc hk hnext hst hl
+      refine ⟨hnext, by simp [mapStateP], hst.1, ?_⟩
+      apply goodLoops_setTop hE hR hpc hk hnext hst hl
       unfold ForLoop.iterate at hit
       split at hit
       · cases hit
@@ -249,7 +250,7 @@ theorem arm_iterate (t : Nat) (ht : P t (f t)) (ht0 : t = 0 ↔ f t = 0) :
         exact ⟨ht, ht0⟩
 
 theorem arm_storeDidNotIterate :
-    StepRel c c' f P (stepStoreDidNotIterate pc st) (stepStoreDidNotIterate k (mapState f st)) := by
+    StepRelG E π c c' f P (stepStoreDidNotIterate pc st) (stepStoreDidNotIterate k (mapStateP f π st)) := by
   unfold stepStoreDidNotIterate
   simp only [mapState_scope, mapScope_forLoops]
   cases hl : st.scope.forLoops with
@@ -259,7 +260,7 @@ theorem arm_storeDidNotIterate :
     nx ((Value.bool (!l.iterated), (pc, pc)) :: st.stack) , (goodStack_cons (goodSlot_own hpc _) hst.1)
 
 theorem arm_break :
-    StepRel c c' f P (stepBreak pc st) (stepBreak k (mapState f st)) := by
+    StepRelG E π c c' f P (stepBreak pc st) (stepBreak k (mapStateP f π st)) := by
   unfold stepBreak
   simp only [mapState_scope, mapScope_forLoops]
   cases hl : st.scope.forLoops with
@@ -269,9 +270,9 @@ theorem arm_break :
     exact ⟨hgl.1, rfl, hst⟩
 
 theorem arm_popLoop :
-    StepRel c c' f P (.next (pc + 1) { st with scope := st.scope.popLoop })
-      (.next (k + 1) { (mapState f st) with scope := (mapState f st).scope.popLoop }) := by
-  refine ⟨hnext, by simp [mapState], hst.1, ?_⟩
+    StepRelG E π c c' f P (.next (pc + 1) { st with scope := st.scope.popLoop })
+      (.next (k + 1) { (mapStateP f π st) with scope := (mapStateP f π st).scope.popLoop }) := by
+  refine ⟨hnext, by simp [mapStateP], hst.1, ?_⟩
   intro l hl
   cases hsc : st.scope with
   | mk loops sv p ctx g =>
